@@ -17,6 +17,7 @@ import (
 	"strconv"
 	"strings"
 	"sync"
+	"syscall"
 	"testing"
 	"time"
 
@@ -326,4 +327,187 @@ func TestC13_Timelines(t *testing.T) {
 			}
 		}
 	})
+}
+
+// TestC13_StalledWriter reaches the interleaving the random time-lines only meet by luck: one
+// writer is still inside its write while *two* interval boundaries pass. The harness owns the
+// stall: the file of the second interval is a FIFO (created beforehand in the log directory under
+// the name the appender is going to use, with a reader that does not drain it), so a writer blocks
+// inside write(2) once the pipe is full, exactly like a writer that the scheduler or a slow disk
+// holds up. Other writers carry the rotation over the next two boundaries. Every write call that
+// returned must have landed exactly once.
+func TestC13_StalledWriter(t *testing.T) {
+	vk.Rule(rule)
+	base := vk.Scratch("c13s")
+	runs := 1
+	if vk.Thorough() {
+		runs = 3
+	}
+	for r := 0; r < runs; r++ {
+		dir := filepath.Join(base, strconv.Itoa(r))
+		_ = os.MkdirAll(dir, 0o755)
+		err := stalledWriterRun(dir, 900+r*37)
+		vk.Eval()
+		vk.Class("stalled-writer-run")
+		vk.NonTrivial(fmt.Sprintf("stalled-writer-%d", r))
+		vk.NonTrivial(fmt.Sprintf("stalled-writer-fifo-%d", r))
+		if err != nil {
+			if strings.Contains(err.Error(), "VERIF-INCONCLUSIVE") {
+				t.Fatalf("%v", err)
+			}
+			p := vk.SaveCase("c13-stall", map[string]any{"error": err.Error(), "schedule_dependent": true, "scenario": "writer blocked in write(2) on the second interval's file (a FIFO) while two boundaries pass"})
+			t.Fatalf("VERIF-VIOLATION C13: %v (case %s)", err, p)
+		}
+	}
+	vk.Sample(map[string]any{"scenario": "stalled writer: A blocks inside write on interval 1's file (FIFO, pipe full) while B rotates at boundaries 2 and 3", "runs": runs})
+}
+
+func stalledWriterRun(dir string, recSize int) error {
+	const name = "stall.log"
+	app := &log.RollingFileAppender{AppenderBase: log.AppenderBase{Name: "r"}, Layout: &log.TextLayout{BaseLayout: log.BaseLayout{FileLineLength: 48}},
+		FileDir: dir, FileName: name, Rotation: log.TimeRotation{Interval: time.Second}, MaxAge: 1000}
+	// start early in a second so that the plan below fits
+	now := time.Now()
+	if now.Sub(now.Truncate(time.Second)) > 300*time.Millisecond {
+		time.Sleep(now.Truncate(time.Second).Add(time.Second).Sub(now) + 20*time.Millisecond)
+	}
+	s0 := time.Now().Truncate(time.Second)
+	s1, s2, s3 := s0.Add(time.Second), s0.Add(2*time.Second), s0.Add(3*time.Second)
+	fifo := filepath.Join(dir, name+"."+s1.Format("20060102150405"))
+	if err := syscall.Mkfifo(fifo, 0o644); err != nil {
+		return fmt.Errorf("VERIF-INCONCLUSIVE: mkfifo: %v", err)
+	}
+	rd, err := os.OpenFile(fifo, os.O_RDONLY|syscall.O_NONBLOCK, 0)
+	if err != nil {
+		return fmt.Errorf("VERIF-INCONCLUSIVE: open fifo: %v", err)
+	}
+	defer rd.Close()
+	if err := app.Start(); err != nil {
+		return fmt.Errorf("VERIF-INCONCLUSIVE: %v", err)
+	}
+	mkline := func(w, seq int) string {
+		payload := strings.Repeat(string(rune('a'+seq%26)), recSize)
+		return fmt.Sprintf("w%d:%d:%d:%08x|%s\n", w, seq, len(payload), crc32.ChecksumIEEE([]byte(payload)), payload)
+	}
+	type done struct{ w, seq int }
+	var mu sync.Mutex
+	var returned []done
+	var wg sync.WaitGroup
+	stopA := make(chan struct{})
+	// writer A: writes steadily from interval 0 on; blocks inside write once interval 1's pipe is full
+	wg.Add(1)
+	go func() {
+		defer wg.Done()
+		for seq := 0; ; seq++ {
+			select {
+			case <-stopA:
+				return
+			default:
+			}
+			app.Write([]byte(mkline(0, seq)))
+			mu.Lock()
+			returned = append(returned, done{0, seq})
+			mu.Unlock()
+			time.Sleep(3 * time.Millisecond)
+		}
+	}()
+	// writer B: idle across whole intervals; its writes carry the rotation over boundaries 2 and 3
+	wg.Add(1)
+	go func() {
+		defer wg.Done()
+		for i, at := range []time.Time{s2.Add(150 * time.Millisecond), s3.Add(150 * time.Millisecond), s3.Add(400 * time.Millisecond)} {
+			time.Sleep(time.Until(at))
+			app.Write([]byte(mkline(1, i)))
+			mu.Lock()
+			returned = append(returned, done{1, i})
+			mu.Unlock()
+		}
+	}()
+	time.Sleep(time.Until(s3.Add(600 * time.Millisecond)))
+	close(stopA)
+	// drain the pipe: whatever was accepted by it counts as landed in that file
+	var pipeData []byte
+	buf := make([]byte, 1<<16)
+	deadline := time.Now().Add(2 * time.Second)
+	for time.Now().Before(deadline) {
+		n, err := rd.Read(buf)
+		pipeData = append(pipeData, buf[:n]...)
+		if n == 0 && err != nil {
+			// EAGAIN: nothing more right now; stop once writer A is no longer blocked
+			time.Sleep(20 * time.Millisecond)
+			mu.Lock()
+			c := len(returned)
+			mu.Unlock()
+			_ = c
+		}
+		if waitDone(&wg, 10*time.Millisecond) {
+			break
+		}
+	}
+	if !waitDone(&wg, 5*time.Second) {
+		return fmt.Errorf("VERIF-HANG a Write call on the rolling appender never returned although its pipe was drained")
+	}
+	for {
+		n, _ := rd.Read(buf)
+		if n <= 0 {
+			break
+		}
+		pipeData = append(pipeData, buf[:n]...)
+	}
+	app.Stop()
+	// collect
+	found := map[done]int{}
+	scan := func(where string, data []byte) error {
+		for _, ln := range strings.Split(strings.TrimSuffix(string(data), "\n"), "\n") {
+			if ln == "" {
+				continue
+			}
+			m := lineRe.FindStringSubmatch(ln)
+			if m == nil {
+				return fmt.Errorf("%s holds a torn record %.60q", where, ln)
+			}
+			w, _ := strconv.Atoi(m[1])
+			seq, _ := strconv.Atoi(m[2])
+			found[done{w, seq}]++
+		}
+		return nil
+	}
+	if err := scan("the interval-1 file (FIFO)", pipeData); err != nil {
+		return err
+	}
+	ents, _ := os.ReadDir(dir)
+	regular := 0
+	for _, e := range ents {
+		if filepath.Join(dir, e.Name()) == fifo {
+			continue
+		}
+		regular++
+		b, _ := os.ReadFile(filepath.Join(dir, e.Name()))
+		if err := scan(e.Name(), b); err != nil {
+			return err
+		}
+	}
+	if len(pipeData) < 40000 {
+		return fmt.Errorf("VERIF-INCONCLUSIVE: the pipe never filled (%d bytes): the stall did not happen", len(pipeData))
+	}
+	if regular < 3 {
+		return fmt.Errorf("VERIF-INCONCLUSIVE: only %d regular files: the two later rotations did not happen", regular)
+	}
+	for _, d := range returned {
+		if found[d] != 1 {
+			return fmt.Errorf("stalled writer: the write of record writer=%d seq=%d returned to its caller but the record is present %d times in the files (a writer that was still inside its write when two interval boundaries passed had its file closed under it)", d.w, d.seq, found[d])
+		}
+	}
+	return nil
+}
+
+func waitDone(wg *sync.WaitGroup, d time.Duration) bool {
+	ch := make(chan struct{})
+	go func() { wg.Wait(); close(ch) }()
+	select {
+	case <-ch:
+		return true
+	case <-time.After(d):
+		return false
+	}
 }
